@@ -97,7 +97,7 @@ def check_roundtrip(ns, fs, markers=None):
 def hist_events():
     ev = []
     for n in ("a", "b"):
-        for d in (("d1", "d3", "d5", "d6", "d7", "d10", "d12", "d13") if n == "a" else ("d1", "d3", "d7")):
+        for d in (("d1", "d3", "d5", "d6", "d7", "d10", "d12", "d13", "d14") if n == "a" else ("d1", "d3", "d7")):
             ev.append(("add", n, d))
         ev.append(("update", n, "c", "d2"))
         ev.append(("replace", n, ("fresh", "d4"), None, "desc é: x"))
